@@ -83,7 +83,7 @@ def run(ctx):
     quick = ctx.tier == 'quick'
     cat, cls = objs.catalogue(), objs.classes()
     invs = c17.INVS + ['EqReflexiveSymmetric']
-    res = tlc.run('MC_Objects', cfg_text=c17.cfg('ClsEqSmall' if quick else 'ClsEq', 'ActsEq', 2, 3, invs=invs), dump=True,
+    res = tlc.run('MC_Objects', cfg_text=c17.cfg('ClsEqSmall' if quick else 'ClsEq', 'ActsEq', 2, 3, invs=invs, extra='TolProbes'), dump=True,
                   tag='c16', timeout=3000)
     ctx.tlc(res, 'MC_Objects two slots: construct/copy/copywith/assign/meta, eq flag')
     if res.violated:
@@ -98,8 +98,8 @@ def run(ctx):
         ctx.violation(f'C16|model|{res.violated}', f'Objects.tla: invariant {res.violated} fails in the model', {'trace': res.trace[-2:]})
     else:
         n = 0
-        for st in parse_dump(res.dump_path, only='"copy"'):
-            if st['act']['a'] != 'copy':
+        for st in parse_dump(res.dump_path, only='"copy'):
+            if st['act']['a'] not in ('copy', 'copyas'):
                 continue
             n += 1
             w = objs.World(cat, cls)
@@ -107,12 +107,13 @@ def run(ctx):
             out = w.apply(st['act'])
             heap, dicts = w.project(2, None)
             mh, md = objs.model_view(st['heap'], st['dicts'])
-            ctx.case(('copyall', json.dumps(st['pre']['heap'], sort_keys=True)), True)
+            ctx.case((st['act']['a'], json.dumps(st['pre']['heap'], sort_keys=True)), True)
             real_eq = w.equality()
-            if out != 'ok' or heap != mh or dicts != md or real_eq != 'eq':
-                ctx.violation(f"C16|copy|{st['pre']['heap'][0]['cls']}|{real_eq.split(' ')[0]}",
-                              f"copy() of {st['pre']['heap'][0]['cls']}: outcome {out}, equality {real_eq}",
-                              {'pre': st['pre'], 'real_post': {'heap': heap, 'dicts': dicts}, 'model_post': {'heap': mh, 'dicts': md}})
+            if out != 'ok' or heap != mh or dicts != md or real_eq != st['eq']:
+                what = 'copy()' if st['act']['a'] == 'copy' else f"a {st['act']['cls']} with the same parameter values"
+                ctx.violation(f"C16|{st['act']['a']}|{st['pre']['heap'][0]['cls']}|{real_eq.split(' ')[0]}",
+                              f"{what} of {st['pre']['heap'][0]['cls']}: outcome {out}, == says {real_eq}, model says {st['eq']}",
+                              {'pre': st['pre'], 'act': st['act'], 'real_post': {'heap': heap, 'dicts': dicts}, 'model_post': {'heap': mh, 'dicts': md}})
         ctx.traces += n
         ctx.note('copies_of_every_class', n)
     tlc.cleanup(res.workdir)
